@@ -2,16 +2,15 @@ package main
 
 import (
 	"flag"
-	"go/ast"
-	"sort"
 	"fmt"
+	"go/ast"
 	"os"
 	"runtime/debug"
 	"runtime/pprof"
+	"sort"
 	"strconv"
 	"strings"
 )
-
 
 var extraCmds = map[string]func([]string){}
 
